@@ -296,15 +296,201 @@ def observe(fn, args: dict, rule: Rule, scratch: Path | None):
             try:
                 r = fn(**a)
                 res = ("ok", canon(r))
+                observe.raw = ("ok", r)
                 alias = [k for k, v in a.items() if v is r and isinstance(v, (list, dict, set, bytearray))]
             except BaseException as e:  # noqa: BLE001
                 res, alias = ("exc", type(e).__name__), []
+                observe.raw = res
         tree = None
         if scratch is not None:
             tree = sorted((str(p.relative_to(scratch)), p.read_text() if p.is_file() else "<dir>") for p in scratch.rglob("*"))
     finally:
         os.chdir(cwd)
     return {"result": res, "args_after": {k: canon(v) for k, v in a.items()}, "stdout": out.getvalue(), "alias": alias, "fs": tree}
+
+
+
+# ------------------------------------------------------------------ model tie (Lib/PyEval.v, Lib/PyRules.v)
+# (code, original) -> (model original, model replacement, the replacement refurb must print for the
+# model replacement to be the right one, result kind).  Operand order = order of the rule's params.
+MODEL_RULES = {
+    (108, "x == y or x == z"): ("lhs_108 {x} {y} {z}", "rhs_108 {x} {y} {z}", "x in (y, z)", "obj"),
+    (171, "x in (y,)"): ("lhs_171 {x} {y}", "rhs_171 {x} {y}", "x == y", "obj"),
+    (171, "x in [y]"): ("lhs_171 {x} {y}", "rhs_171 {x} {y}", "x == y", "obj"),
+    (110, "x if x else y"): ("lhs_110 {x} {y}", "rhs_110 {x} {y}", "x or y", "obj"),
+    (114, "not not x"): ("lhs_114 {x}", "rhs_114 {x}", "bool(x)", "obj"),
+    (124, "x == y and x == z"): ("lhs_124 {x} {y} {z}", "rhs_124 {x} {y} {z}", "x == y == z", "obj"),
+    (136, "x if x < y else y"): ("lhs_136_min {x} {y}", "rhs_136_min {x} {y}", "min(x, y)", "obj"),
+    (136, "x if x > y else y"): ("lhs_136_max {x} {y}", "rhs_136_max {x} {y}", "max(x, y)", "obj"),
+    (143, "l or []"): ("lhs_143 {l} (VList [])", "rhs_143 {l} (VList [])", "l", "obj"),
+    (143, "s or ''"): ("lhs_143 {s} (VStr [])", "rhs_143 {s} (VStr [])", "s", "obj"),
+    (143, "x or 0"): ("lhs_143 {x} (VInt 0)", "rhs_143 {x} (VInt 0)", "x", "obj"),
+    (143, "x or 0.0"): ("lhs_143 {x} (VFloat (FNum 0))", "rhs_143 {x} (VFloat (FNum 0))", "x", "obj"),
+    (143, "t or ()"): ("lhs_143 {t} (VTuple [])", "rhs_143 {t} (VTuple [])", "t", "obj"),
+    (143, "b or False"): ("lhs_143 {b} (VBool false)", "rhs_143 {b} (VBool false)", "b", "obj"),
+    (149, "b is True"): ("lhs_149_is_true {b}", "rhs_149_pos {b}", "b", "obj"),
+    (149, "b is False"): ("lhs_149_is_false {b}", "rhs_149_neg {b}", "not b", "obj"),
+    (149, "b == True"): ("lhs_149_eq_true {b}", "rhs_149_pos {b}", "b", "obj"),
+    (168, "isinstance(x, type(None))"): ("lhs_168 {x}", "rhs_168 {x}", "x is None", "obj"),
+    (169, "type(x) is type(None)"): ("lhs_168 {x}", "rhs_168 {x}", "x is None", "obj"),
+    (191, "b in {True, False}"): ("lhs_191_in {b}", "rhs_191 {b}", "isinstance(b, bool)", "obj"),
+    (191, "b in [True, False]"): ("lhs_191_in {b}", "rhs_191 {b}", "isinstance(b, bool)", "obj"),
+    (191, "b is True or b is False"): ("lhs_191_is {b}", "rhs_191 {b}", "isinstance(b, bool)", "obj"),
+    (192, "sorted(l)[0]"): ("lhs_192_first {l!z}", "rhs_192_min {l!z}", "min(l)", "Z"),
+    (192, "sorted(l)[-1]"): ("lhs_192_last {l!z}", "rhs_192_max {l!z}", "max(l)", "Z"),
+    (115, "len(nums) == 0"): ("lhs_115_eq0 {nums}", "rhs_115_not {nums}", "not nums", "bool"),
+    (115, "len(t) == 0"): ("lhs_115_eq0 {t}", "rhs_115_not {t}", "not t", "bool"),
+    (115, "len(nums) >= 1"): ("lhs_115_ge1 {nums}", "rhs_115_bool {nums}", "nums", "bool"),
+    (115, "len(s) > 0"): ("lhs_115_ge1 {s}", "rhs_115_bool {s}", "s", "bool"),
+}
+MODEL_TYPES = {"int", "bool", "opt_bool", "opt_int", "float", "str", "list_int", "nonempty_list_int", "tuple_int"}
+
+
+class NotInModel(Exception):
+    pass
+
+
+def coq_value(v) -> str:
+    if v is None:
+        return "VNone"
+    if isinstance(v, bool):
+        return f"(VBool {'true' if v else 'false'})"
+    if isinstance(v, int):
+        return f"(VInt ({v}))"
+    if isinstance(v, float):
+        if v != v:
+            return "(VFloat FNaN)"
+        if v in (float("inf"), float("-inf")):
+            return f"(VFloat (FInf {'true' if v < 0 else 'false'}))"
+        if v == 0 and math.copysign(1, v) < 0:
+            return "(VFloat FNegZero)"
+        n, d = v.as_integer_ratio()
+        return f"(VFloat (FNum (({n}) # {d})))"
+    if isinstance(v, str):
+        return "(VStr [" + "; ".join(f"{ord(c)}%N" for c in v) + "])"
+    if isinstance(v, list):
+        return "(VList [" + "; ".join(coq_value(x) for x in v) + "])"
+    if isinstance(v, tuple):
+        return "(VTuple [" + "; ".join(coq_value(x) for x in v) + "])"
+    raise NotInModel(type(v).__name__)
+
+
+def coq_objs(args: dict) -> dict:
+    """Operands as model objects: the same Python object gets the same identity."""
+    ids: dict[int, int] = {}
+    out = {}
+    for k, v in args.items():
+        lab = ids.setdefault(id(v), len(ids) + 1)
+        out[k] = f"{{| lbl := Some {lab}%nat; val := {coq_value(v)} |}}"
+    return out
+
+
+def _fill(tpl: str, args: dict) -> str:
+    objs = coq_objs(args)
+
+    def sub(m):
+        name, _, conv = m.group(1).partition("!")
+        if conv == "z":
+            return "[" + "; ".join(f"({x})" for x in args[name]) + "]%Z"
+        return objs[name]
+    return re.sub(r"\{([a-z!]+)\}", sub, tpl)
+
+
+def _expected(kind: str, outcome) -> str:
+    """CPython's outcome as the model's result term."""
+    if outcome[0] != "ok":
+        return "None"
+    v = outcome[1]
+    if kind == "obj":
+        return f"(Some {coq_value(v)})"
+    if kind == "Z":
+        if isinstance(v, bool) or not isinstance(v, int):
+            raise NotInModel("non-int element")
+        return f"(Some ({v})%Z)"
+    return f"(Some {'true' if v else 'false'})"
+
+
+OPS_POOL = [None, True, False, 0, 1, -1, 2, 255, 10**20, 2**53, 2**53 + 1, 0.0, -0.0, 1.0, 1.5, -2.0, 0.1, 9007199254740992.0, float("inf"), float("-inf"), NAN, float("nan"),
+            "", "a", "ab", "abc", "b", "B", "aé", "\U0001F600"]
+SEQ_POOL = [[], [0], [1, 2], [1, 2, 3], [1.0, 2], (), (0,), (1, 2), ("a",), [[1], [1]], [[]]]
+
+
+def model_tie(ctx: Ctx, derived: dict) -> None:
+    """X2: the model's operations and the model's rule expressions against CPython."""
+    hdr = ("From Coq Require Import QArith.\nFrom Lib Require Import Base PyEval PyRules.\nOpen Scope list_scope.\nSet Printing Width 100000.\n"
+           "Definition ozeq (a b : option Z) := match a, b with Some x, Some y => Z.eqb x y | None, None => true | _, _ => false end.\n"
+           "Definition obeq (a b : option bool) := match a, b with Some x, Some y => Bool.eqb x y | None, None => true | _, _ => false end.\n"
+           "Definition oobeq (a b : option bool) := obeq a b.\n"
+           "Definition bad (l : list bool) := (fix go (i : nat) (l : list bool) : list nat := match l with [] => [] | b :: q => if b then go (S i) q else i :: go (S i) q end) 0%nat l.\n")
+    rows, descr = [], []
+    pool = OPS_POOL + SEQ_POOL
+    # ---- operations: ==, truthiness, < (scalars), in (with identity)
+    for a in pool:
+        rows.append(f"Bool.eqb (py_truthy {coq_value(a)}) {coq.coq_bool(bool(a))}")
+        descr.append(f"bool({a!r})")
+        for b in pool:
+            rows.append(f"Bool.eqb (py_eq {coq_value(a)} {coq_value(b)}) {coq.coq_bool(a == b)}")
+            descr.append(f"{a!r} == {b!r}")
+    for a in OPS_POOL:
+        for b in OPS_POOL:
+            try:
+                e = f"(Some {coq.coq_bool(a < b)})"
+            except TypeError:
+                e = "None"
+            rows.append(f"oobeq (py_lt {coq_value(a)} {coq_value(b)}) {e}")
+            descr.append(f"{a!r} < {b!r}")
+    rng = ctx.rng
+    for _ in range(ctx.budget(400, 3000)):
+        xs = [rng.choice(pool) for _ in range(rng.choice([2, 3, 4]))]
+        if rng.random() < 0.4:
+            xs[rng.randrange(1, len(xs))] = xs[0]          # the same object again
+        objs = list(coq_objs({str(i): v for i, v in enumerate(xs)}).values())
+        rows.append(f"Bool.eqb (py_in {objs[0]} [{'; '.join(objs[1:])}]) {coq.coq_bool(xs[0] in tuple(xs[1:]))}")
+        descr.append(f"{xs[0]!r} in {tuple(xs[1:])!r} (identities {[id(x) == id(xs[0]) for x in xs[1:]]})")
+        if len(xs) == 2 and all(not isinstance(x, (list, tuple)) for x in xs):
+            for fn, py in (("py_min2", min), ("py_max2", max)):
+                try:
+                    e = f"(Some {coq_value(py(xs[0], xs[1]))})"
+                except TypeError:
+                    e = "None"
+                rows.append(f"oveq ({fn} {objs[0]} {objs[1]}) {e}")
+                descr.append(f"{py.__name__}({xs[0]!r}, {xs[1]!r})")
+    n_ops = len(rows)
+    # ---- rule expressions: both sides of every modelled rule on the environments the engine executed
+    skipped = 0
+    for (r, rhs, envs) in derived.values():
+        m = MODEL_RULES.get((r.code, r.lhs))
+        if m is None or not set(r.params.values()) <= MODEL_TYPES:
+            continue
+        ml, mr, want, kind = m
+        cmp_ = {"obj": "oveq", "Z": "ozeq", "bool": "obeq"}[kind]
+        for args, a, c in envs:
+            try:
+                rows.append(f"{cmp_} ({_fill(ml, args)}) {_expected(kind, a)}")
+                descr.append(f"FURB{r.code} original `{r.lhs}` on {args!r}")
+                rows.append(f"{cmp_} ({_fill(mr, args)}) {_expected(kind, c)}")
+                descr.append(f"FURB{r.code} replacement `{rhs}` on {args!r}")
+            except NotInModel:
+                skipped += 1
+    shards = []
+    size = 1500
+    for k in range(0, len(rows), size):
+        shards.append("Eval vm_compute in bad [\n" + ";\n".join(rows[k:k + size]) + "].\n")
+    outs = coq.eval_shards(ctx, "pyeval", hdr, shards)
+    bad, err = [], ""
+    for k, (rc, o, e) in enumerate(outs):
+        vals = coq.parse_eval_values(o)
+        if rc != 0 or not vals:
+            err = (e or o)[-400:]
+            continue
+        for j in re.findall(r"\d+", vals[0].split(":")[0]):
+            bad.append(k * size + int(j))
+    ctx.extra["model_tie"] = {"operation_rows": n_ops, "rule_rows": len(rows) - n_ops, "outside_model_value_domain": skipped}
+    ctx.obligation("correspondence: Lib/PyEval.v operations (truthiness, ==, <, in with identity, min/max) = CPython on the value pool; "
+                   "Lib/PyRules.v original and replacement of every modelled rule = CPython's outcome on every executed environment",
+                   not bad and not err, err or "; ".join(descr[i] for i in bad[:8]))
+    for i in bad[:10]:
+        ctx.notes.append(f"model/CPython disagreement: {descr[i]}")
 
 
 def run(ctx: Ctx) -> None:
@@ -316,6 +502,8 @@ def run(ctx: Ctx) -> None:
     ]
     ctx.assumptions += ["operands are side-effect free, never raise and have exactly their declared static types (the property's hypotheses): generated values are of the exact type",
                         "checks whose documentation states that the rewrite is a heuristic or changes behaviour are outside the claim: " + ", ".join(f"FURB{k}" for k in DOC_EXCLUSIONS)]
+    ctx.assumptions.append("Lib/PyEval.v: elements of model lists/tuples carry no identity, so the model's container equality is CPython's only for reflexive elements (no NaN inside a container); "
+                           "proved rules cover the operand types named in each theorem, the other instances of the same check are decided by execution only")
     ctx.rule("every rule instance of the table x the product (sampled to the budget) of its operands' value lists (ints incl. big, floats incl. NaN/+-0.0/inf, strings sharing prefixes/suffixes, "
              "lists with ties, empty containers, a scratch directory for file-system rules); observables: value+type or exception class, operands after the call, stdout, aliasing, directory tree; "
              "non-trivial = environment where the original does not raise; distinct by (rule instance, environment)")
@@ -352,7 +540,8 @@ def run(ctx: Ctx) -> None:
             ec = get_error_class(m)
             if ec:
                 docs[ec.code] = ec.__doc__ or ""
-        unmatched, underivable = [], []
+        unmatched, underivable, stale = [], [], []
+        derived: dict = {}
         scratch = td / "scratch"
         for i, r in enumerate(RULES):
             es = by_rule.get(i)
@@ -396,13 +585,22 @@ def run(ctx: Ctx) -> None:
             if len(combos) > ctx.budget(700, 6000):
                 combos = rng.sample(combos, ctx.budget(700, 6000))
             reported: set[str] = set()
+            envs: list = []
+            derived[i] = (r, rhs, envs)
+            mm = MODEL_RULES.get((r.code, r.lhs))
+            if mm is not None and norm(mm[2]) != norm(rhs):
+                stale.append(f"FURB{r.code} `{r.lhs}`: model replacement `{mm[2]}`, refurb prints `{rhs}`")
             for vals in combos:
                 args = dict(zip(r.params, vals))
                 a = observe(lf, args, r, scratch if r.fs else None)
+                raw_a = observe.raw
                 c = observe(rf, args, r, scratch if r.fs else None)
+                raw_c = observe.raw
                 ctx.case((i, repr(vals)), nontrivial=a["result"][0] == "ok",
                          sample={"rule": f"FURB{r.code}", "original": r.lhs, "replacement": rhs, "env": {k: repr(v) for k, v in args.items()}} if rng.random() < 0.002 else None)
                 ctx.count(f"class-{r.cls}")
+                if mm is not None and len(envs) < 400:
+                    envs.append((args, raw_a, raw_c))
                 if a["result"][0] == "exc":
                     continue                 # the property's hypothesis: the original does not raise
                 if a["result"][0] == "ok" and c["result"][0] == "ok" and r.mode == "stmt":
@@ -430,6 +628,10 @@ def run(ctx: Ctx) -> None:
         ctx.obligation("rule table tie: every instance of the table is flagged by refurb with its own code (table and checks agree on the idiom)",
                        len(unmatched) <= 0, "; ".join(unmatched[:6]))
         ctx.obligation("rule table tie: the replacement of every flagged instance is derivable from the printed message", not underivable, "; ".join(underivable[:6]))
+        ctx.obligation("model tie: the replacement each proved rule models is the replacement refurb prints", not stale, "; ".join(stale[:6]))
+        ctx.extra["modelled_rule_instances"] = sorted(f"FURB{r.code} `{r.lhs}` [{','.join(r.params.values())}]" for (r, _, _) in derived.values()
+                                                      if (r.code, r.lhs) in MODEL_RULES and set(r.params.values()) <= MODEL_TYPES)
+        model_tie(ctx, derived)
     finally:
         shutil.rmtree(td, ignore_errors=True)
     ctx.resolve_broken({}, b.first_error)
